@@ -97,6 +97,8 @@ def catalog(etl):
     add('addfieldusingcontext', lambda s: etl.addfieldusingcontext(s, 'z', lambda p, c, n: (p.a if p else None, n.a if n else None)), c=1)
     add('rowslice-2-', lambda s: etl.rowslice(s, 2, None))
     add('rowslice-0-50-2', lambda s: etl.rowslice(s, 0, 50, 2))
+    add('rowslice-0-6-2', lambda s: etl.rowslice(s, 0, 6, 2))            # a stepped slice shorter than what is asked for: it must stop at `stop`
+    add('rowslice-1-7-3', lambda s: etl.rowslice(s, 1, 7, 3))
     add('head', lambda s: etl.head(s, 5))
     add('skip', lambda s: etl.skip(s, 2))
     add('skipcomments', lambda s: etl.skipcomments(etl.convert(s, 'a', lambda v: ('#' if v % 3 == 0 else '') + str(v)), '#'))
@@ -466,6 +468,16 @@ def run(ctx):
             check_pipeline('chain:' + names, build, C, False, seed, ragged, rng.choice(['islice', 'islice', 'head', 'look']), k, 'chain')
         ctx.count('chain-length:%d' % len(chain))
 
+    # a slice with a stop, run to its end, never reads past `stop` (whatever the step)
+    for (a_, b_, st) in ((0, 6, 2), (1, 7, 3), (2, 9, 2), (0, 4, 1)):
+        for n in (N1, N2):
+            src = TableSrc(n, 1)
+            consume(etl, etl.rowslice(src, a_, b_, st), 'islice', 40)
+            ctx.case(('rowslice-to-end', a_, b_, st, n))
+            ctx.count('rowslice-to-end')
+            if src.pulls > b_ + 1:
+                ctx.spec_fail('rowslice|reads-past-stop', 'rowslice(start, stop, step) run to its end pulled source rows beyond stop',
+                              {'op': 'rowslice(%d, %d, %d)' % (a_, b_, st), 'source_rows': n, 'rows_pulled': src.pulls, 'allowed': b_ + 1})
     # multi-source operators: the later sources are not read while the first still delivers
     for name, mk in [('cat', lambda a, b: etl.cat(a, b)), ('stack', lambda a, b: etl.stack(a, b)),
                      ('annex', lambda a, b: etl.annex(a, b)), ('hashjoin-probe', lambda a, b: etl.hashleftjoin(a, etl.head(b, 30), key='a')),
